@@ -373,6 +373,15 @@ def hex_byte_range(e):
         inner = strip(e.a[1][0])
         if inner.k == "call" and inner.a[0].name == "index" and P.match(inner.a[1][0], RAW) is not None:
             r = shapes.range_of(inner.a[1][1])
+            if r and isinstance(r[0], tuple) and r[1] is None:
+                # raw[raw.len() - c ..] on the 32-byte array
+                x = strip(r[0][1])
+                if x.k == "field" and x.a[1] == "0" and x.a[0].k == "binop":
+                    x = x.a[0]
+                if x.k == "binop" and x.a[0].startswith("Sub"):
+                    a_, b_ = strip(x.a[1]), strip(x.a[2])
+                    if a_.k == "call" and a_.a[0].name == "len" and a_.a[1] and P.match(a_.a[1][0], RAW) is not None and b_.k == "const" and isinstance(b_.a[0], int) and 0 <= b_.a[0] <= 32:
+                        return (32 - b_.a[0], 32)
             if r and isinstance(r[0], int) and (r[1] is None or isinstance(r[1], int)):
                 return (r[0], 32 if r[1] is None else r[1])
         # any constant sub-slice of raw: split_at halves, nested ranges
